@@ -290,7 +290,7 @@ def pmap(fn, arglist, jobs=None):
               pass
             results[i] = ("died", {"cur": cur, "where": where, "exitcode": p.exitcode})
       unclaimed = any(not os.path.exists(os.path.join(jobdir, "claim.%d" % i)) for i in range(len(arglist)))
-      if unclaimed and p.exitcode != 0:
+      if unclaimed and p.exitcode != 0 and os.path.isdir(jobdir) and wcount[0] < jobs + len(arglist):
         spawn()
     if not workers and any(r is None for r in results):
       # everybody is gone: pick up late results, then give up on the rest
